@@ -9,9 +9,11 @@ var Registry = map[string]func(seed int64) *engine.Check{
 	"C03": func(int64) *engine.Check { return C03() },
 	"C04": func(int64) *engine.Check { return C04() },
 	"C05": func(int64) *engine.Check { return C05() },
+	"C06": func(int64) *engine.Check { return C06() },
 	"C07": func(int64) *engine.Check { return C07() },
 	"C16": func(int64) *engine.Check { return C16() },
 	"C08": func(int64) *engine.Check { return C08() },
+	"C10": func(int64) *engine.Check { return C10() },
 	"C11": func(int64) *engine.Check { return C11() },
 	"C12": func(int64) *engine.Check { return C12() },
 	"C13": func(int64) *engine.Check { return C13() },
